@@ -126,7 +126,11 @@ fn normalized_escaped_char_q(input: Span) -> PResult<String> {
 fn selector_plain_part(input: Span) -> PResult<String> {
     fold_many1(
         verify(take_char, |ch| {
-            ch.is_alphanumeric() || *ch == '-' || *ch == '_'
+            // Anything from U+00A1 is written unescaped in output.
+            ch.is_alphanumeric()
+                || *ch == '-'
+                || *ch == '_'
+                || u32::from(*ch) >= 0xa1
         }),
         String::new,
         |mut acc, chr: char| {
